@@ -17,7 +17,7 @@ RULE = ("conv probe, no scripted backend panics: (a) command lines of length lim
         "and invalid commands around the error threshold; (f) random walks without panic letters. non-trivial = the conversation "
         "contains an invalid, over-long or binary line; distinct = distinct case line | sched probe with `latestart` (the command loop does not wait "
         "for the delivery goroutine): the peer disconnects / QUITs / RSETs right after a BDAT command, SMTP and both LMTP modes, repeated: no recovered panic may be logged")
-THEOREMS = ["C19_short_lines_ok", "C19_long_line_trips", "C19_long_line_refused", "C19_error_threshold", "C19_tripped_ends_commands", "C19_resume_short_ok", "C19_resume_counts_pending", "C19_next_chunk_payload_not_counted", "C19_unusable_bdat_line_counted_on", "C19_nothing_skipped_behind_mode_change", "C19_next_line_always_counted", "C19_lookahead_only_skips"]
+THEOREMS = ["C19_short_lines_ok", "C19_long_line_trips", "C19_long_line_refused", "C19_error_threshold", "C19_tripped_ends_commands", "C19_resume_short_ok", "C19_resume_counts_pending", "C19_line_handed_out_within_limit"]
 signature = cc.signature
 mutate = cc.mutate
 shrink = P.shrink_resegment
@@ -27,7 +27,7 @@ def known_sharedseg(case, impl, reason):
     return case.endswith("TAG=cmdonly-sharedseg") and reason.count("C19") == 1 and "over-long line was not answered 500" in reason
 
 
-KNOWN = {}      # the shared-segment finding was repaired (known_findings.json, ebe7440): if it returns it is a violation
+KNOWN = {"late_delivery_after_logout": cc.known_late_delivery}      # (the shared-segment finding was repaired (known_findings.json, ebe7440): if it returns it is a violation
 
 
 def nontrivial(case, ans):
@@ -170,15 +170,32 @@ def _groups0(tier, rng):
     # body.  Nothing may be skipped behind the AUTH / DATA line, or the over-long line behind the look-alike escapes the limit
     for lim in (100, 2000):
         longl = b"NOOP " + b"x" * (lim + 100) + b"\r\n"
-        c = g.Conv(dict(maxline=lim, insecure=1, authsess=1, mechs=hx(b"PLAIN")))
+        c = g.Conv(dict(maxline=lim, insecure=1, authsess=1, mechs=hx(b"LOGIN")))
         c.add(b"EHLO x\r\n", NS="ok"); c.add(b"MAIL FROM:<s@x>\r\n", MAIL="ok"); c.add(b"RCPT TO:<r@x>\r\n", RCPT="ok")
         c.add(b"BDAT 10\r\n12345", DATA=g.ddec(ret="prop"))
-        c.add(b"67890BDAT 0 LAST\r\nAUTH PLAIN\r\nBDAT %d\r\n" % (lim + 50) + longl + b"MAIL FROM:<long@x>\r\nQUIT\r\n")
+        c.add(b"67890BDAT 0 LAST\r\nAUTH LOGIN\r\nBDAT %d\r\n" % (lim + 50) + longl + b"MAIL FROM:<long@x>\r\nQUIT\r\n",
+              AUTH="ok", SASL=[hx(b"User:") + "!0!ok", "-!1!ok"])
         hist.append(c.case(seg="line") + "\tTAG=bait-only")
         c = g.Conv(dict(maxline=lim))
         c.add(b"EHLO x\r\n", NS="ok"); c.add(b"MAIL FROM:<s@x>\r\n", MAIL="ok"); c.add(b"RCPT TO:<r@x>\r\n", RCPT="ok")
         c.add(b"BDAT 10\r\n12345", DATA=g.ddec(ret="prop"))
         c.add(b"67890BDAT 0 LAST\r\nMAIL FROM:<s2@x>\r\nRCPT TO:<r2@x>\r\nDATA\r\nBDAT %d\r\n.\r\n" % (lim + 50) + longl + b"MAIL FROM:<long@x>\r\nQUIT\r\n",
+              MAIL="ok", RCPT="ok", DATA=g.ddec(ret="prop"))
+        hist.append(c.case(seg="line") + "\tTAG=bait-only")
+    # ... and the other way round (what the look-ahead of ab2fa9c got wrong): a DATA command — refused, or accepted with its body — buffered
+    # behind a chunk, and behind it a pipelined chunk whose payload has an LF-free run longer than the limit; all of it arrives while the
+    # limit is lifted.  Every command line is short: nothing may be refused for its length, every message is delivered
+    for lim in (100, 2000):
+        run = b"x" * (lim + 1000)
+        c = g.Conv(dict(maxline=lim))
+        c.add(b"EHLO x\r\n", NS="ok"); c.add(b"MAIL FROM:<s@x>\r\n", MAIL="ok"); c.add(b"RCPT TO:<r@x>\r\n", RCPT="ok")
+        c.add(b"BDAT 5\r\n", DATA=g.ddec(ret="prop"))
+        c.add(b"helloDATA\r\nBDAT %d LAST\r\n" % len(run) + run + b"NOOP\r\nQUIT\r\n")
+        hist.append(c.case(seg="line") + "\tTAG=bait-only")
+        c = g.Conv(dict(maxline=lim))
+        c.add(b"EHLO x\r\n", NS="ok"); c.add(b"MAIL FROM:<s@x>\r\n", MAIL="ok"); c.add(b"RCPT TO:<r@x>\r\n", RCPT="ok")
+        c.add(b"BDAT 5 LAST\r\n", DATA=g.ddec(ret="prop"))
+        c.add(b"helloMAIL FROM:<s2@x>\r\nRCPT TO:<r2@x>\r\nDATA\r\nbody\r\n.\r\nMAIL FROM:<s3@x>\r\nRCPT TO:<r3@x>\r\nBDAT %d LAST\r\n" % len(run) + run + b"NOOP\r\nQUIT\r\n",
               MAIL="ok", RCPT="ok", DATA=g.ddec(ret="prop"))
         hist.append(c.case(seg="line") + "\tTAG=bait-only")
     for lim in (40, 2000):
@@ -281,6 +298,10 @@ def late_start_cases(tier, rng):
             for _ in range(3 if tier == "quick" else 12):
                 cfg = g.cfg_str(dict(lmtp=lm, lmtpsess=sess))
                 cases.append("\t".join(["sched", cfg, "NS=;MAIL=;RCPT=;DATA=;AUTH=;SASL=;HS=", ";".join(["latestart", seg(*pre, *t), "eof"])]))
+        # the preemption of known finding C08-late-delivery-after-logout made deterministic (`holddeliver`, hook point bdat-deliver): the
+        # delivery goroutine holds the session when the peer goes away, and begins Data after the Logout
+        cases.append("\t".join(["sched", g.cfg_str(dict(lmtp=lm, lmtpsess=sess)), "NS=;MAIL=;RCPT=;DATA=;AUTH=;SASL=;HS=",
+                                ";".join(["latestart", "holddeliver", seg(*pre, b"BDAT 0\r\n"), "eof"])]))
     return cases
 
 
